@@ -426,6 +426,38 @@ func c02Registry(p *core.Prog, r *core.Report) {
 		})
 		r.Check(ok, "C02-R5", fname(f), "TypeCode() returns the constructor's type", p.Pos(f.Pos()), "stored type returned", "type code does not reflect the constructed type")
 	}
+	// the running checksum accumulates: Add feeds the hash and never restarts
+	// it (only Reset does), and the zero-length scratch slice Sum appends to is
+	// assigned by the constructor only (a Sum that keeps its result makes the
+	// next one longer than Size())
+	{
+		sumCache := p.Field("", "hashChecksum", "sumCache")
+		for _, name := range []string{"Add", "Sum"} {
+			f := mustFunc(p, r, "", "hashChecksum", name)
+			if f == nil {
+				continue
+			}
+			bad := ""
+			writes := 0
+			core.EachInstr(f, func(i ssa.Instruction) {
+				if c, isC := i.(ssa.CallInstruction); isC && c.Common().IsInvoke() {
+					switch c.Common().Method.Name() {
+					case "Reset":
+						bad = "the hash is restarted"
+					case "Write":
+						writes++
+					}
+				}
+				if st, isSt := i.(*ssa.Store); isSt && sumCache != nil && core.AddrField(st.Addr) == sumCache {
+					bad = "the scratch slice is reassigned"
+				}
+			})
+			if name == "Add" && writes != 1 && bad == "" {
+				bad = fmt.Sprintf("the bytes are written %d times", writes)
+			}
+			r.Check(bad == "", "C02-R5", fname(f), "the running checksum accumulates ("+name+")", p.Pos(f.Pos()), "one hash.Write per Add, no Reset, scratch slice untouched", "the checksum is not the running checksum of everything added: "+bad)
+		}
+	}
 }
 
 // tableOrigin names the crc32 table a value comes from (through package init stores / captured cells).
